@@ -42,6 +42,7 @@ Print Assumptions C07_certificate_planarity.
 Theorem C07_simplices_closed :
   forall (V : list (vec3 R)) tr, closedb tr = true -> closed (resolve Rops V tr).
 Proof. exact closedb_closed. Qed.
+Print Assumptions C07_simplices_closed.
 
 (* edges: for a face list of ANY size in which every directed edge occurs once and its reverse once (what the certificate
    checks per instance) and no edge is degenerate, reversal pairs the directed edges i<j with those i>j, so the edge list
